@@ -635,22 +635,17 @@ def run(ctx, idx):
     if not pre:
         ctx.hold("C10.f", con, rel, rs.node.lineno, "the string body goes to the decoder as sliced", nontrivial=False)
     con = "%s::t_STRING::escape-codec" % rel
-    dec = [n for n in ast.walk(rs.node) if isinstance(n, ast.Call) and isinstance(n.func, ast.Attribute) and n.func.attr == "decode" and n.args and isinstance(n.args[0], ast.Constant) and n.args[0].value == "unicode_escape"]
+    from . import strcodec as _sc
+
+    dec = _sc.unicode_escape_calls(rs.node)
     if dec:
-        enc = dec[0].func.value
-        if isinstance(enc, ast.Name):
-            # the encoded bytes held in a local first
-            defs_ = [x.value for x in ast.walk(rs.node) if isinstance(x, ast.Assign) and len(x.targets) == 1 and isinstance(x.targets[0], ast.Name) and x.targets[0].id == enc.id]
-            if len(defs_) == 1:
-                enc = defs_[0]
-        if isinstance(enc, ast.Call) and isinstance(enc.func, ast.Attribute) and enc.func.attr == "encode":
-            eargs = [a.value for a in enc.args if isinstance(a, ast.Constant)]
-            if eargs[:1] in (["latin-1"], ["latin1"], ["iso-8859-1"]) and "backslashreplace" in eargs:
-                ctx.hold("C10.f", con, rel, dec[0].lineno, "latin-1/backslashreplace encode is inverted by unicode_escape for every code point")
-            elif not eargs or eargs[0].lower().replace("-", "") == "utf8":
-                ctx.violate("C10.f", con, rel, dec[0].lineno, "text is encoded as UTF-8 but `unicode_escape` reads the bytes as Latin-1: `é` comes back as `Ã©`")
-            else:
-                raise AnalysisError("C10.f: encode(%s) before unicode_escape is outside the recognised codec pairs" % eargs)
+        dn_, enc, encoding_ = dec[0]
+        if encoding_ == "latin-1":
+            ctx.hold("C10.f", con, rel, dn_.lineno, "latin-1/backslashreplace encode is inverted by unicode_escape for every code point")
+        elif encoding_ == "utf-8":
+            ctx.violate("C10.f", con, rel, dn_.lineno, "text is encoded as UTF-8 (explicitly, or by handing text to the codec) but `unicode_escape` reads the bytes as Latin-1: `é` comes back as `Ã©`")
+        elif isinstance(enc, ast.Call) and isinstance(enc.func, ast.Attribute) and enc.func.attr == "encode":
+            raise AnalysisError("C10.f: encode(%s) before unicode_escape is outside the recognised codec pairs" % K.src(enc)[:60])
         else:
             raise AnalysisError("C10.f: decode('unicode_escape') without a recognisable encode")
     else:
@@ -666,6 +661,7 @@ def run(ctx, idx):
             ctx.note("t_STRING processes no escape sequences")
     # decoding errors -> SyntaxError
     con = "%s::t_STRING::decode-errors" % rel
+    dec = [d_[0] for d_ in dec]
     if dec:
         guarded = False
         for n in ast.walk(rs.node):
